@@ -225,6 +225,8 @@ func TestWorker(t *testing.T) {
 	sum := &summary{Type: "summary", Worker: worker}
 	start := time.Now()
 	seenViol := map[string]bool{}
+	maxShapes := int(envInt("VERIF_MAX_SHAPES", 150000))
+	emitHash := os.Getenv("VERIF_EMIT_HASH") != ""
 	startI := envInt("VERIF_START_I", 0)
 	onlyRun := envInt("VERIF_ONLY_RUN", -1)
 	for i := startI; i < startI+maxRuns; i++ {
@@ -252,8 +254,16 @@ func TestWorker(t *testing.T) {
 			}
 			continue
 		}
-		if rr.Nontrivial {
+		if rr.Nontrivial && len(st.Shapes) < maxShapes {
+			// counted conservatively: beyond the cap new shapes are no longer recorded
 			st.Shapes[rr.ShapeKey] = struct{}{}
+		}
+		if emitHash {
+			vs := []string{}
+			for _, v := range rr.Violations {
+				vs = append(vs, v.Rule)
+			}
+			emit(map[string]any{"type": "hash", "run": run, "trace_sha256": rr.TraceHash, "violations": vs, "tape_len": len(tp.Log)})
 		}
 		if len(sum.Samples) < 3 && (rr.Nontrivial || i > 50) {
 			tr := rr.Trace
